@@ -1937,8 +1937,11 @@ func (c *HostClient) connsCleaner() {
 }
 
 func (c *HostClient) CloseConn(cc *clientConn) {
-	c.decConnsCount()
+	// Close the connection before giving up its slot: decConnsCount may start
+	// dialing for a waiter at once, and MaxConns bounds the connections that
+	// are open or being dialed.
 	cc.c.Close()
+	c.decConnsCount()
 	releaseClientConn(cc)
 }
 
